@@ -111,19 +111,20 @@ ThmOptimize ==
 (* A response is identified by the file whose content it carries: "in:<f>"  *)
 (* for files inside the root, "out:<f>" for the canaries, "" for none.      *)
 (***************************************************************************)
-\* kernel path walk from the root directory over the fixed tree: the position is the depth below the root (>= 0), -1 = the
-\* directory <parent>, -2 = <parent2>, -3 = anywhere else (never comes back).  Names: "." and "" stay, ".." goes up,
-\* "root" below <parent> and "parent" below <parent2> come back towards the root, any other name descends (inside the root)
-\* or leaves for good (outside).  Returns "inside" | "outside".
-RECURSIVE Walk(_, _, _)
-Walk(segs, i, depth) ==
-    IF i > Len(segs) THEN (IF depth >= 0 THEN "inside" ELSE "outside")
+\* Where a request path ends, LEXICALLY (dot segments removed as in RFC 3986; the kernel agrees whenever every prefix is an
+\* existing directory, and otherwise finds nothing at all): the position is the sequence of names below <parent2>, starting
+\* at <<"parent", "root">>; "." and "" stay, ".." drops the last name -- or climbs above <parent2>, from where no name leads
+\* back (the directories up there are not among the segment classes).  "inside" iff the position still begins with the root.
+RECURSIVE LexWalk(_, _, _, _)
+LexWalk(segs, i, pos, above) ==
+    IF i > Len(segs) THEN (IF above = 0 /\ Len(pos) >= 2 /\ pos[1] = "parent" /\ pos[2] = "root" THEN "inside" ELSE "outside")
     ELSE LET s == segs[i] IN
-         IF s \in {".", ""} THEN Walk(segs, i + 1, depth)
-         ELSE IF depth >= 0 THEN Walk(segs, i + 1, IF s = ".." THEN depth - 1 ELSE depth + 1)
-         ELSE IF depth = -1 THEN Walk(segs, i + 1, IF s = ".." THEN -2 ELSE IF s = "root" THEN 0 ELSE -3)
-         ELSE IF depth = -2 THEN Walk(segs, i + 1, IF s = "parent" THEN -1 ELSE -3)
-         ELSE "outside"
+         IF s \in {".", ""} THEN LexWalk(segs, i + 1, pos, above)
+         ELSE IF s = ".." THEN (IF pos # <<>> THEN LexWalk(segs, i + 1, SubSeq(pos, 1, Len(pos) - 1), above)
+                                ELSE LexWalk(segs, i + 1, pos, above + 1))
+         ELSE IF above > 0 THEN "outside"
+         ELSE LexWalk(segs, i + 1, Append(pos, s), above)
+Walk(segs, i, depth) == LexWalk(segs, i, <<"parent", "root">>, 0)      \* (depth: kept for the callers, always 0)
 
 StaticFails(q, r) ==
     IF r.status = -1 THEN {"dropped_connection"}
